@@ -245,6 +245,7 @@ def vary_times(rng, chain, keep_first=False, pattern=None):
             t = rng.choice([now + 7190, now + 7300, now + 86400 * 400, t + 600, t + 600])
         elif pattern == "edges":
             t = rng.choice([1, 2**31 - 1, 2**31, 2**32 - 1, 2**32 - 2, t + 600, 1231006505])
+        t = min(max(1, t), 0xFFFFFFFF)       # stay inside the 32-bit field (a step beyond 2^32-1 saturates)
         b.time = t if pattern != "constant" else blocks[first].time if i > first else t
     link(blocks[first:] if keep_first else blocks, prev=blocks[0].hash if keep_first else blocks[0].prev)
     return pattern
